@@ -1078,6 +1078,8 @@ def generate_search_data_ctl(sd_mod):
             defaults = [ast.unparse(d) for d in fa.args.defaults]
             out.append(f"/-- parameters of `{cname}.{attr}` (defaults of the trailing ones: {defaults}) -/\ndef {nm}Params : List String := "
                        + "[" + ", ".join(_lean_str(x) for x in params) + "]\n")
+            out.append(f"/-- default values of the trailing parameters of `{cname}.{attr}` (source text) -/\ndef {nm}Defaults : List String := "
+                       + "[" + ", ".join(_lean_str(x) for x in defaults) + "]\n")
             out.append(f"/-- body of `{cname}.{attr}` -/\ndef {nm} : List Stmt :=\n  " + _stmts_to_lean(fa.body, 2) + "\n")
     out.append("/-- the methods translated above -/\ndef methods : List String := [" + ", ".join(_lean_str(n_) for n_ in names) + "]\n")
     return "\n".join(out) + "\nend Gen.SearchDataCtl\n", []
